@@ -1,6 +1,6 @@
 """ECDSA reference model (verify, RFC 6979 sign as used by the library, recovery, DER)."""
 import hmac, hashlib
-from .curve import b32, i32, SECP
+from .curve import b32, i32, SECP, sha256_new as _SHA
 
 
 class RFC6979:
@@ -9,19 +9,19 @@ class RFC6979:
     def __init__(self, key):
         self.v = b"\x01" * 32
         self.k = b"\x00" * 32
-        self.k = hmac.new(self.k, self.v + b"\x00" + key, hashlib.sha256).digest()
-        self.v = hmac.new(self.k, self.v, hashlib.sha256).digest()
-        self.k = hmac.new(self.k, self.v + b"\x01" + key, hashlib.sha256).digest()
-        self.v = hmac.new(self.k, self.v, hashlib.sha256).digest()
+        self.k = hmac.new(self.k, self.v + b"\x00" + key, _SHA).digest()
+        self.v = hmac.new(self.k, self.v, _SHA).digest()
+        self.k = hmac.new(self.k, self.v + b"\x01" + key, _SHA).digest()
+        self.v = hmac.new(self.k, self.v, _SHA).digest()
         self.retry = False
 
     def generate(self, n):
         if self.retry:
-            self.k = hmac.new(self.k, self.v + b"\x00", hashlib.sha256).digest()
-            self.v = hmac.new(self.k, self.v, hashlib.sha256).digest()
+            self.k = hmac.new(self.k, self.v + b"\x00", _SHA).digest()
+            self.v = hmac.new(self.k, self.v, _SHA).digest()
         out = b""
         while len(out) < n:
-            self.v = hmac.new(self.k, self.v, hashlib.sha256).digest()
+            self.v = hmac.new(self.k, self.v, _SHA).digest()
             out += self.v
         self.retry = True
         return out[:n]
